@@ -9,12 +9,18 @@ CHECKS = {
  "C03": dict(cat="model_checking", tech="explicit-state product raw x minimized automaton, reachability, Moore partition refinement",
    text="For every automaton of the enumerated family (main and every within-word automaton rebuilt raw from its regex): the raw x minimized product is explored completely (language preserved), every minimized state is shown reachable and co-reachable, and an independent Moore refinement shows all states pairwise distinguishable and the size equal to the harness's own minimal automaton.",
    note="trusted: harness Moore refinement/trim (unit-tested); verif accessors", ref="4/C03"),
+ "C08": dict(cat="fault_enumeration", tech="exhaustive placement of every mistake class in every context + verdict of every enumerated grammar against an independent mistake classifier",
+   text="Every mistake class of the statement is planted in every context of a fixed context list (every nesting operator, 1-2 definition levels, word/non-word, statement orders, reachability situations for cycles) for all four shells, and additionally every tree of the bounded family is classified by the reference classifier R8; the library pipeline must accept exactly the clean ones and reject the others with a diagnostic of a planted class.",
+   note="trusted: reference classifier harness/src/r8.rs; shapes on which statement and code can be read either way are counted as skipped, not judged", ref="4/C08"),
  "C09": dict(cat="model_checking", tech="exhaustive per-state item-pair check on every compiled automaton; `||` vs `|` product automaton (levels erased)",
    text="Every state of every compiled automaton (main and within-word) of the collision-forcing and general families is visited and every pair of outgoing items examined: equal literal text, or within-word automata with equal word languages (decided by canonical minimal forms), must share the target. The `||` grammar and its `|` rewrite are compared by a complete product with levels erased. Bash-level differential traces are part of C01/C12 machinery.",
    note="trusted: canonical-form language equality of within-word automata; known finding subword-two-readings listed in known-findings.txt", ref="4/C09"),
  "C11": dict(cat="exploration", tech="exhaustive enumeration of definition subsets x names x reference sites x targets, product equivalence against the reference + script text observation",
    text="All 3x16 definition sets (plain none/command/expression x every subset of the four @shell definitions) for X, PATH, DIRECTORY at 6 reference sites and 4 targets are compiled; the automaton must equal the reference (which encodes the R1 choice order), the emitted script must contain exactly the chosen probe text, and removing other-shell definitions must not change a byte.",
    note="trusted: reference semantics R1; built-in completer texts copied into the harness", ref="4/C11"),
+ "C15": dict(cat="exploration", tech="exhaustive enumeration of reference structures (definition statuses x reference subsets) against a reachability oracle",
+   text="All 6^3 status vectors of three definable names x all subsets of call-variant references x all acyclic body reference subsets x 4 targets: the three warning sets must equal the reachability oracle, every warning span must cover the offending name token, and deleting everything warned about must not change the script bytes or the verdict.",
+   note="trusted: reachability oracle r8::warnings; Level L observes ValidGrammar's maps after main.rs's `_` exemption", ref="4/C15"),
  "C05": dict(cat="exploration", tech="exhaustive bounded enumeration of trees, strings and layout deviations (print/parse round trip)",
    text="Every tree up to the node bound, every literal/description string up to the length bound and every single/double layout deviation is printed by the harness printer and parsed by Grammar::parse; the parsed tree must equal the printed one. Exhaustive within the stated bounds.",
    note="trusted: the harness printer's precedence ladder and escaper (validated by this very check: a printer bug shows up as a mismatch)", ref="4/C05"),
